@@ -191,9 +191,10 @@ func replayApps(in string, shard, of int) {
 			if tx, ok := step["tx"].(map[string]interface{}); ok {
 				kind = hx.Step(tx).Str("kind")
 			}
-			// every divergence is counted by (request class | stage | message kind | differing fields) so that the
-			// check can attribute ALL of them to properties, not only the few kept verbatim
-			rep.OpCounts["!"+step.Str("cls")+"|"+stage+"|"+kind+"|"+fieldsOf(what)]++
+			// every divergence is counted by (request class | stage | message kind | the specification's reason for
+			// refusing the request | differing fields) so that the check can attribute ALL of them to properties,
+			// not only the few kept verbatim
+			rep.OpCounts["!"+step.Str("cls")+"|"+stage+"|"+kind+"|"+step.Str("why")+"|"+fieldsOf(what)]++
 			rep.AddMismatch(hx.Mismatch{Behaviour: idx, Step: si, Op: step.Str("cls"), What: stage + ": " + what,
 				Want: want, Got: got, History: beh, Variant: stage})
 		}
